@@ -381,6 +381,10 @@ class Machine:
 
     def try_variant(self, path, fields):
         segs = [x for x in split_path(path) if not x.startswith('<')]
+        if len(segs) == 1:
+            owners = self.variant_owner.get(strip_generics(segs[0]).strip(), [])
+            if len(owners) == 1 and owners[0] in ('Ordering', 'Option', 'Result', 'ControlFlow'):
+                segs = [owners[0], segs[0]]
         if len(segs) >= 2:
             vname = strip_generics(segs[-1]).strip()
             ename = strip_generics(segs[-2]).strip()
